@@ -7,7 +7,8 @@ name=$(echo "$seed" | tr '/' '_' | sed 's/^_tmp_seeds_//; s/^_verif_seeded_//')
 wt=/tmp/sw_$name
 git -C /repo worktree remove --force "$wt" >/dev/null 2>&1
 git -C /repo worktree add -q --detach "$wt" HEAD || exit 2
-if ! git -C "$wt" apply "$seed/patch.diff"; then echo "$name: PATCH DOES NOT APPLY"; git -C /repo worktree remove --force "$wt"; exit 2; fi
+pf="$seed/patch.diff"; [ -f "$seed/patch.ported.diff" ] && pf="$seed/patch.ported.diff"
+if ! git -C "$wt" apply "$pf"; then echo "$name: PATCH DOES NOT APPLY"; git -C /repo worktree remove --force "$wt"; exit 2; fi
 out=/tmp/so_$name; rm -rf "$out"; mkdir -p "$out"
 cd /verif
 for id in "$@"; do
